@@ -127,8 +127,7 @@ impl BlteFile {
     /// decompressed size from chunk headers or chunk metadata.
     pub fn decompress(&self) -> BlteResult<Vec<u8>> {
         // Performance: Pre-allocate with estimated total decompressed size
-        let total_size = self.estimate_decompressed_size();
-        let mut result = Vec::with_capacity(total_size);
+        let mut result = Vec::with_capacity(self.preallocation_size());
 
         for (index, chunk) in self.chunks.iter().enumerate() {
             let decompressed = chunk.decompress(index)?;
@@ -157,8 +156,7 @@ impl BlteFile {
         }
 
         // Performance: Pre-allocate with estimated total decompressed size
-        let total_size = self.estimate_decompressed_size();
-        let mut result = Vec::with_capacity(total_size);
+        let mut result = Vec::with_capacity(self.preallocation_size());
 
         for (index, chunk) in self.chunks.iter().enumerate() {
             let decompressed = if chunk.mode == CompressionMode::Encrypted {
@@ -171,6 +169,23 @@ impl BlteFile {
             result.extend_from_slice(&decompressed);
         }
         Ok(result)
+    }
+
+    /// Capacity to reserve for the decompressed output
+    ///
+    /// The size estimate comes from header fields, so it is only trusted up
+    /// to a bound derived from the compressed data actually present (and
+    /// never beyond `MAX_DECOMPRESSION_SIZE`). The output buffer still grows
+    /// on demand if the real output is larger.
+    fn preallocation_size(&self) -> usize {
+        const MAX_TRUSTED_RATIO: usize = 16;
+        const MIN_TRUSTED_SIZE: usize = 1024 * 1024;
+
+        let compressed: usize = self.chunks.iter().map(|c| c.data.len()).sum();
+        let trusted = compressed
+            .saturating_mul(MAX_TRUSTED_RATIO)
+            .clamp(MIN_TRUSTED_SIZE, compression::MAX_DECOMPRESSION_SIZE);
+        self.estimate_decompressed_size().min(trusted)
     }
 
     /// Estimate total decompressed size from header or chunk metadata
